@@ -171,7 +171,7 @@ class Machine:
     # ------------------------------------------------------------------ helpers
     def fl(s, c):
         """A float literal in the current mode."""
-        if s.mode == 'CONC':
+        if s.mode in ('CONC', 'FP'):
             return float(c)
         return Fraction(c)
 
@@ -400,6 +400,34 @@ class Machine:
             else:
                 return {'Eq': a == b, 'Ne': a != b, 'Lt': a < b, 'Le': a <= b, 'Gt': a > b, 'Ge': a >= b}[op]
             return f32r(r) if ty == 'f32' else r
+        if s.mode == 'FP':
+            # IEEE semantics, bit-precise (only add/sub/compare are within the solvers' reach: DESIGN 1.1(d))
+            fs = 'F64' if ty == 'f64' else 'F32'
+            if not is_sym(a) and not is_sym(b):
+                a = float(a)
+                b = float(b)
+                if op in ('Add', 'Sub', 'Mul', 'Div'):
+                    r = {'Add': a + b, 'Sub': a - b, 'Mul': a * b}[op] if op != 'Div' else fdiv(a, b)
+                    return f32r(r) if ty == 'f32' else r
+                if op == 'Rem':
+                    return math.fmod(a, b)
+                return {'Eq': a == b, 'Ne': a != b, 'Lt': a < b, 'Le': a <= b, 'Gt': a > b, 'Ge': a >= b}[op]
+            if op in ('Add', 'Sub', 'Mul', 'Div'):
+                return T.mk(fs, 'fp.' + op.lower(), a, b)
+            if op == 'Rem':
+                s.opaque_used.add('fmod')
+                return app('fpfmod', fs, a, b)
+            if op == 'Ne':
+                return bnot(T.mk('Bool', 'fp.eq', a, b))
+            return T.mk('Bool', {'Eq': 'fp.eq', 'Lt': 'fp.lt', 'Le': 'fp.leq', 'Gt': 'fp.gt', 'Ge': 'fp.geq'}[op], a, b)
+        if s.mode == 'ERR' and op in ('Add', 'Sub', 'Mul', 'Div') and (is_sym(a) or is_sym(b)):
+            # rounding-error model: exact real result times (1 + delta), |delta| <= unit roundoff (normal range)
+            from .terms import fresh
+            d = fresh('delta_' + ty)
+            u = Fraction(1, 2 ** 53) if ty == 'f64' else Fraction(1, 2 ** 24)
+            s.cur.pc.append(band(cmp('<=', neg(u), d), cmp('<=', d, u)))
+            s.stats['roundings'] = s.stats.get('roundings', 0) + 1
+            return arith('*', arith({'Add': '+', 'Sub': '-', 'Mul': '*', 'Div': '/'}[op], a, b), arith('+', 1, d))
         if op in ('Add', 'Sub', 'Mul', 'Div'):
             return arith({'Add': '+', 'Sub': '-', 'Mul': '*', 'Div': '/'}[op], a, b)
         if op == 'Rem':
@@ -506,8 +534,10 @@ class Machine:
             aty = s.operand_ty(p, rv[2])
             if rv[1] == 'Neg':
                 if aty in FLOATS:
-                    if s.mode == 'CONC' and not is_sym(a):
+                    if s.mode in ('CONC', 'FP') and not is_sym(a):
                         return [-float(a)]
+                    if s.mode == 'FP':
+                        return [T.mk(sort_of(a), 'fp.neg', a)]
                     return [neg(a)]
                 if is_sym(a):
                     return [neg(a, 'Int')]
@@ -880,6 +910,19 @@ class Machine:
             oid = s.count(p, mid)
             s.obligations.append({'kind': 'unreach', 'id': oid, 'leaf': 0, 'pc': tuple(p.pc), 'path': p.pid, 'lemma': False})
             return []
+        if base == 'vrel_err':
+            mid = a[0][0].s.replace(' ', '_')
+            got, want, ulps = a[1][0], a[2][0], a[3][0]
+            ty = fname.split('::<')[1].rstrip('>') if '::<' in fname else 'f64'
+            eps = (2.0 ** -52) if ty == 'f64' else (2.0 ** -23)
+            if conc:
+                p.events.append(('ASSERT', mid, abs(got - want) <= ulps * eps * abs(want)))
+                return []
+            oid = s.count(p, mid)
+            bound = arith('*', arith('*', Fraction(ulps), Fraction(eps)), ite(cmp('>=', want, 0), want, neg(want)))
+            dlt = arith('-', got, want)
+            s.obligations.append({'kind': 'bool', 'id': oid, 'leaf': 0, 'pc': tuple(p.pc), 'cond': band(cmp('<=', dlt, bound), cmp('<=', neg(bound), dlt)), 'path': p.pid, 'lemma': False})
+            return []
         if base == 'vmay_panic':
             p.may_panic = True
             return []
@@ -1058,6 +1101,7 @@ class Machine:
                         leaves[i] = substitute(v, env, memo)
 
     def stmt(s, p, st):
+        s.cur = p
         k = st[0]
         if k == 'nop':
             return
